@@ -729,6 +729,10 @@ func (g *CFG) flagStep(env flagEnv, n ast.Node) flagEnv {
 					}
 				case *ast.CompositeLit:
 					class = "nonnil"
+				case *ast.CallExpr:
+					if n := p.CalleeName(x); n == "fmt.Errorf" || n == "errors.New" {
+						class = "nonnil"
+					}
 				}
 			}
 			if class == "" {
